@@ -833,7 +833,9 @@ class ResultHandler(PoolThread):
                 return
 
             if self.on_ready_counters:
-                worker_pid = next(iter(item.worker_pids()), None)
+                # credit the worker that sent this result, i.e. the one
+                # that accepted this part of the job.
+                worker_pid = item._sender_of(i)
                 if worker_pid and worker_pid in self.on_ready_counters:
                     on_ready_counter = self.on_ready_counters[worker_pid]
                     with on_ready_counter.get_lock():
@@ -1816,6 +1818,9 @@ class ApplyResult:
     def worker_pids(self):
         return [self._worker_pid] if self._worker_pid else []
 
+    def _sender_of(self, i):
+        return self._worker_pid
+
     def wait(self, timeout=None):
         self._event.wait(timeout)
 
@@ -1957,6 +1962,12 @@ class MapResult(ApplyResult):
     def worker_pids(self):
         return [pid for pid in self._worker_pid if pid]
 
+    def _sender_of(self, i):
+        try:
+            return self._worker_pid[i * self._chunksize]
+        except (IndexError, TypeError):
+            return None
+
 #
 # Class whose instances are returned by `Pool.imap()`
 #
@@ -1977,6 +1988,7 @@ class IMapIterator:
         self._ready = False
         self._unsorted = {}
         self._worker_pids = []
+        self._owners = {}
         self._lost_worker_timeout = lost_worker_timeout
         cache[self._job] = self
 
@@ -2034,12 +2046,16 @@ class IMapIterator:
 
     def _ack(self, i, time_accepted, pid, *args):
         self._worker_pids.append(pid)
+        self._owners[i] = pid
 
     def ready(self):
         return self._ready
 
     def worker_pids(self):
         return self._worker_pids
+
+    def _sender_of(self, i):
+        return self._owners.get(i)
 
 #
 # Class whose instances are returned by `Pool.imap_unordered()`
